@@ -2,6 +2,11 @@
 
 // White-box observation of the red-black tree for the C06 correspondence check. This file is injected into package
 // redblack with `go build -overlay`; it reads the unexported fields and never writes them.
+//
+// The accessor block below is the ONLY place that names unexported identifiers of the package. vlib/C06.py reads the
+// struct declarations of the working tree and rewrites this block (and the node type name) when a refactoring has
+// renamed them, so that a pure renaming does not break the check; if the roles of the fields cannot be recognised the
+// check falls back to black-box observation (go/cmd/c06/blackbox.go).
 package redblack
 
 import (
@@ -10,12 +15,27 @@ import (
 	"strings"
 )
 
+// ---- accessor block (rewritten by vlib/C06.py) ----
+func verifRoot[K, V any](t *Tree[K, V]) *node[K, V]         { return t.root }
+func verifCount[K, V any](t *Tree[K, V]) int                { return t.count }
+func verifCompare[K, V any](t *Tree[K, V]) func(a, b K) int { return t.compare }
+func verifParent[K, V any](n *node[K, V]) *node[K, V]       { return n.parent }
+func verifLeft[K, V any](n *node[K, V]) *node[K, V]         { return n.left }
+func verifRight[K, V any](n *node[K, V]) *node[K, V]        { return n.right }
+func verifBlack[K, V any](n *node[K, V]) bool               { return n.black }
+func verifKey[K, V any](n *node[K, V]) K                    { return n.key }
+func verifValue[K, V any](n *node[K, V]) V                  { return n.value }
+
+// ---- end of accessor block ----
+
+func verifRed[K, V any](n *node[K, V]) bool { return n != nil && !verifBlack(n) }
+
 // VerifDump returns the pre-order dump `(colour key:value left right)` with `.` for nil, followed by the
 // parent-link consistency bit.
 func (t *Tree[K, V]) VerifDump() string {
 	var sb strings.Builder
 	ok := true
-	if t.root != nil && t.root.parent != nil {
+	if verifRoot(t) != nil && verifParent(verifRoot(t)) != nil {
 		ok = false
 	}
 	var walk func(n *node[K, V])
@@ -24,25 +44,25 @@ func (t *Tree[K, V]) VerifDump() string {
 			sb.WriteByte('.')
 			return
 		}
-		if n.left != nil && n.left.parent != n {
+		if verifLeft(n) != nil && verifParent(verifLeft(n)) != n {
 			ok = false
 		}
-		if n.right != nil && n.right.parent != n {
+		if verifRight(n) != nil && verifParent(verifRight(n)) != n {
 			ok = false
 		}
 		sb.WriteByte('(')
-		if n.black {
+		if verifBlack(n) {
 			sb.WriteByte('b')
 		} else {
 			sb.WriteByte('r')
 		}
-		fmt.Fprintf(&sb, "%v:%v ", n.key, n.value)
-		walk(n.left)
+		fmt.Fprintf(&sb, "%v:%v ", verifKey(n), verifValue(n))
+		walk(verifLeft(n))
 		sb.WriteByte(' ')
-		walk(n.right)
+		walk(verifRight(n))
 		sb.WriteByte(')')
 	}
-	walk(t.root)
+	walk(verifRoot(t))
 	if ok {
 		sb.WriteString(" parents=ok")
 	} else {
@@ -55,16 +75,16 @@ func (t *Tree[K, V]) VerifDump() string {
 // equal black height on every path, height <= 2*floor(log2(n+1)), search-tree order with respect to the compare function (in-order sequence is
 // non-decreasing), count == number of nodes, parent links consistent. Returns "ok" or a description.
 func (t *Tree[K, V]) VerifCheck() string {
-	if t.root == nil {
-		if t.count != 0 {
-			return fmt.Sprintf("FAIL count=%d on an empty tree", t.count)
+	if verifRoot(t) == nil {
+		if verifCount(t) != 0 {
+			return fmt.Sprintf("FAIL count=%d on an empty tree", verifCount(t))
 		}
 		return "ok"
 	}
-	if !t.root.black {
+	if !verifBlack(verifRoot(t)) {
 		return "FAIL root is red"
 	}
-	if t.root.parent != nil {
+	if verifParent(verifRoot(t)) != nil {
 		return "FAIL root has a parent"
 	}
 	problem := ""
@@ -82,30 +102,30 @@ func (t *Tree[K, V]) VerifCheck() string {
 			height = depth
 		}
 		defer func() { depth-- }()
-		if n.left != nil && n.left.parent != n {
-			problem = fmt.Sprintf("FAIL parent link of left child of %v", n.key)
+		if verifLeft(n) != nil && verifParent(verifLeft(n)) != n {
+			problem = fmt.Sprintf("FAIL parent link of left child of %v", verifKey(n))
 		}
-		if n.right != nil && n.right.parent != n {
-			problem = fmt.Sprintf("FAIL parent link of right child of %v", n.key)
+		if verifRight(n) != nil && verifParent(verifRight(n)) != n {
+			problem = fmt.Sprintf("FAIL parent link of right child of %v", verifKey(n))
 		}
-		if n.isRed() && (n.left.isRed() || n.right.isRed()) {
-			problem = fmt.Sprintf("FAIL red node %v has a red child", n.key)
+		if verifRed(n) && (verifRed(verifLeft(n)) || verifRed(verifRight(n))) {
+			problem = fmt.Sprintf("FAIL red node %v has a red child", verifKey(n))
 		}
-		lh := walk(n.left)
-		if prev != nil && t.compare(prev.key, n.key) > 0 {
-			problem = fmt.Sprintf("FAIL order: %v before %v", prev.key, n.key)
+		lh := walk(verifLeft(n))
+		if prev != nil && verifCompare(t)(verifKey(prev), verifKey(n)) > 0 {
+			problem = fmt.Sprintf("FAIL order: %v before %v", verifKey(prev), verifKey(n))
 		}
 		prev = n
-		rh := walk(n.right)
+		rh := walk(verifRight(n))
 		if lh != rh && problem == "" {
-			problem = fmt.Sprintf("FAIL black heights %d/%d below %v", lh, rh, n.key)
+			problem = fmt.Sprintf("FAIL black heights %d/%d below %v", lh, rh, verifKey(n))
 		}
-		if n.black {
+		if verifBlack(n) {
 			return lh + 1
 		}
 		return lh
 	}
-	walk(t.root)
+	walk(verifRoot(t))
 	if problem != "" {
 		return problem
 	}
@@ -113,8 +133,8 @@ func (t *Tree[K, V]) VerifCheck() string {
 	if limit := 2 * (bits.Len(uint(nodes+1)) - 1); height > limit {
 		return fmt.Sprintf("FAIL height=%d limit=%d nodes=%d", height, limit, nodes)
 	}
-	if nodes != t.count {
-		return fmt.Sprintf("FAIL count=%d nodes=%d", t.count, nodes)
+	if nodes != verifCount(t) {
+		return fmt.Sprintf("FAIL count=%d nodes=%d", verifCount(t), nodes)
 	}
 	return "ok"
 }
